@@ -283,10 +283,10 @@ func trimStack(s string) string {
 	lines := strings.Split(s, "\n")
 	var keep []string
 	for _, l := range lines {
-		if strings.Contains(l, "ulikunitz/xz") {
+		if strings.Contains(l, "ulikunitz/xz") || strings.Contains(l, "/repo/") || strings.Contains(l, "/cmd/gxz/") {
 			keep = append(keep, strings.TrimSpace(l))
 		}
-		if len(keep) >= 6 {
+		if len(keep) >= 10 {
 			break
 		}
 	}
